@@ -286,6 +286,69 @@ def style_at_case(ctx, spec, off):
     ctx.case("wrap_style_at", [W.enc_text(t), off], W.enc_style(got), shape="neg" if off < 0 else "pos")
 
 
+def snapshot(t):
+    """everything observable about a Text: state, and rendering (or the exception it raises)"""
+    return W.enc_tr(t)
+
+
+def history_case(ctx, spec, calls, rng):
+    """The SAME Text object wrapped several times.  `Text.wrap` must be a pure function of its receiver: the receiver
+    (plain, _length, spans, attributes, rendering) is the same after every call, every call answers what a fresh
+    copy of the original text would answer (the model is asked with the state recorded BEFORE the first call), and
+    the Lines returned are independent objects: editing one line (pad / crop / restyle) changes neither the receiver,
+    nor the other lines of the same result, nor the results of other calls."""
+    s, base, spans, tj, to, tnw, tts = spec
+    t = build(spec)
+    original_req = W.enc_text(t)
+    original = snapshot(t)
+    results = []  # (args, lines, [snapshot per line])
+    inp = (spec, calls)
+
+    def recheck(what, skip=None):
+        ctx.check(snapshot(t) == original, "wrap:receiver-unchanged", inp, f"{what}: the wrapped Text itself changed: {snapshot(t)} was {original}")
+        for k, (a, ls, snaps) in enumerate(results):
+            for i, (l, sn) in enumerate(zip(ls, snaps)):
+                if skip == (k, i):
+                    continue
+                ctx.check(snapshot(l) == sn, "wrap:results-independent", inp, f"{what}: line {i} of result {k} (wrap{a!r}) changed: {snapshot(l)} was {sn}")
+
+    for n, args in enumerate(calls):
+        w, j, ov, ts, nw = args
+        try:
+            lines = list(t.wrap(W.FC, w, justify=j, overflow=ov, tab_size=ts, no_wrap=nw))
+        except Exception as e:  # noqa: BLE001
+            ctx.check(False, "wrap:raises", inp, f"call {n} of the history raised {type(e).__name__}: {e}")
+            return
+        # what a fresh text would give (the model is pure; it is asked with the ORIGINAL state)
+        ctx.case("wrap_wrap", [FLAGS, original_req, w, W.J[j], W.O[ov], W.enc_opt(ts), W.enc_optbool(nw)], W.ans_texts(lines), shape=f"history{min(n, 3)}",
+                 sample=f"call {n} of {len(calls)} on one Text({s!r}, spans={spans!r}): wrap(width={w}, justify={j!r}, overflow={ov!r})")
+        recheck(f"after call {n} wrap{args!r}")
+        evaluate_wrap(ctx, spec, args, lines)
+        results.append((args, lines, [snapshot(l) for l in lines]))
+        ctx.note("history:calls")
+        # edit one of the returned lines, then one more time look at everything else
+        if lines and rng.random() < 0.7:
+            k = len(results) - 1
+            i = rng.randrange(len(lines))
+            l = lines[i]
+            op = rng.choice(["pad_left", "pad", "truncate", "stylize", "right_crop", "append"])
+            if op == "pad_left":
+                l.pad_left(rng.randint(1, 3))
+            elif op == "pad":
+                l.pad(1)
+            elif op == "truncate":
+                l.truncate(max(1, w - 1), overflow="crop", pad=True)
+            elif op == "stylize":
+                l.stylize("s5", 0, max(1, len(l)))
+            elif op == "right_crop":
+                l.right_crop(1) if len(l) else l.pad_right(1)
+            else:
+                l.append("x", "s5")
+            results[k][2][i] = snapshot(l)
+            recheck(f"after {op} on line {i} of result {k}", skip=(k, i))
+            ctx.note("history:edit=" + op)
+
+
 def gen_spec(rng, s, kmax=2, attrs=True):
     base = rng.choice(["", "", "s4", "s1"])
     spans = gen_spans(rng, len(s), kmax)
@@ -340,7 +403,7 @@ def run(ctx):
 
     # ---- 2. Text.wrap: small scope, sampled by seed
     small = list(all_strings(ALPHA, 4))
-    n2 = 40000 if quick else 300000
+    n2 = 36000 if quick else 300000
     for k in range(n2):
         r = rng.random()
         if r < 0.35:
@@ -395,6 +458,36 @@ def run(ctx):
         wrap_case(ctx, ("ab", "", [], None, None, None, None), (4, None, None, ts, None), shape="tabsize")
     ctx.flush()
 
+    # ---- 4b. histories: one Text object wrapped several times (wrap must not touch its receiver; results independent)
+    n4b = 3500 if quick else 60000
+    for k in range(n4b):
+        r = rng.random()
+        if r < 0.5:
+            s = gen_string(rng, 6, ["a", "b", " ", "あ", "̀"])  # mostly single lines that fit: wrap works on copy()
+        elif r < 0.8:
+            s = gen_string(rng, 7, ALPHA)
+        else:
+            s = gen_prose(rng, rng.randint(8, 40))
+        spec = gen_spec(rng, s, kmax=4)
+        calls = []
+        first = gen_args(rng, wmax=12)
+        for c in range(rng.choice([2, 2, 3, 4])):
+            q = rng.random()
+            if c and q < 0.35:
+                calls.append(first)  # the very same call again
+            elif c and q < 0.6:
+                calls.append((first[0],) + gen_args(rng)[1:])  # same width, other options
+            else:
+                a_ = gen_args(rng, wmax=12)
+                # padding modes matter most: pad_left edits span lists in place
+                if rng.random() < 0.5:
+                    a_ = (a_[0], rng.choice(["center", "right"]), a_[2], a_[3], a_[4])
+                calls.append(a_)
+                if not c:
+                    first = a_
+        history_case(ctx, spec, calls, rng)
+    ctx.flush()
+
     # ---- 5. Lines.justify and get_style_at_offset on their own (lines that wrap itself never produces included)
     n5 = 8000 if quick else 120000
     jalpha = ["a", "b", " ", " ", "あ", "̀", "　"]
@@ -412,7 +505,13 @@ def replay(ctx, case):
     site = case.get("site", "")
     inp = case.get("input")
     n0 = len(ctx.failures)
-    if site.startswith("wrap:"):
+    if site in ("wrap:receiver-unchanged", "wrap:results-independent") or (site.startswith("wrap:") and inp and isinstance(inp[1], list) and inp[1] and isinstance(inp[1][0], list)):
+        import random
+
+        spec, calls = inp
+        spec = (spec[0], spec[1], [tuple(x) for x in spec[2]], *spec[3:])
+        history_case(ctx, spec, [tuple(c) for c in calls], random.Random(case.get("seed", 0)))
+    elif site.startswith("wrap:"):
         spec, args = inp
         spec = (spec[0], spec[1], [tuple(x) for x in spec[2]], *spec[3:])
         t = build(spec)
